@@ -266,8 +266,25 @@ UNIT = {
          'rewrites': [('RX', 'R8e', r'\bevaluator\(scope\)', 'evaluator.call(scope)', None),
                       ('RX', 'R11', r'FeelContext::default\(\)', 'feel_context_default()', None),
                       ('RX', 'R2v', r'for \(opt_name, evaluator\) in &entry_evaluators \{', 'for (opt_name, evaluator) in entry_evaluators.iter() {', 1)],
-         'ensures': [('caller_scope_untouched', STACK_SAME, ['C13', 'C04'])],
-         'loop_specs': {0: {'invariant': [('one_temporary_context', 'scope.contexts@.len() == old(scope).contexts@.len() + 1 && scope.contexts@.drop_last() =~= old(scope).contexts@', ['C13', 'C04'])]}}},
+         'splices': [{'id': 'ghost_trace', 'op': 'before', 'anchor': 'for (opt_name, evaluator) in', 'text': 'let ghost mut cs: Seq<FeelContext> = seq![scope.contexts@.last()];'}],
+         'ensures': [('caller_scope_untouched', STACK_SAME, ['C13', 'C04']),
+                     ('each_entry_sees_the_entries_before_it_the_result_entry_decides',
+                      'exists |cs: Seq<FeelContext>, k: int| 0 <= k <= entry_evaluators@.len() && #[trigger] boxed_run(entry_evaluators@, old(scope).contexts@, cs, k) '
+                      '&& (if k < entry_evaluators@.len() { entry_evaluators@[k].0 is None && r == ev_value(entry_evaluators@[k].1, old(scope).contexts@.push(cs[k])) } '
+                      'else { r is Context && r->Context_0.0@ =~= cs[k].0@ })', ['C04', 'C13'])],
+         'loop_specs': {0: {'iter_name': 'ite',
+                            'invariant': [('one_temporary_context', 'scope.contexts@.len() == old(scope).contexts@.len() + 1 && scope.contexts@.drop_last() =~= old(scope).contexts@', ['C13', 'C04']),
+                                          ('pairs', 'ite.seq().len() == entry_evaluators@.len() && forall |j: int| 0 <= j < ite.seq().len() ==> *(#[trigger] ite.seq()[j]) == entry_evaluators@[j]', ['C04']),
+                                          ('entries_so_far', 'boxed_run(entry_evaluators@, old(scope).contexts@, cs, ite.index@ as int) && cs[ite.index@ as int] == scope.contexts@.last() '
+                                                             '&& evaluated_context.0@ =~= scope.contexts@.last().0@', ['C04', 'C13'])],
+                            'body_prefix': PRE + '\nproof { assert(scope.contexts@ =~= old(scope).contexts@.push(cs[ite.index@ as int])); assert(*opt_name == entry_evaluators@[ite.index@ as int].0 && *evaluator == entry_evaluators@[ite.index@ as int].1); }\nlet ghost cs0 = cs;\nlet ghost top0 = scope.contexts@.last();',
+                            'body_suffix': 'proof { cs = cs0.push(scope.contexts@.last());\n  assert(entry_evaluators@[ite.index@ as int].0 is Some);\n'
+                                           '  assert(scope.contexts@.last().0@ =~= top0.0@.insert(entry_evaluators@[ite.index@ as int].0->Some_0, ev_value(entry_evaluators@[ite.index@ as int].1, old(scope).contexts@.push(top0))));\n'
+                                           '  assert forall |j: int| 0 <= j < ite.index@ + 1 implies (#[trigger] entry_evaluators@[j]).0 is Some by { }\n'
+                                           '  assert forall |j: int| 0 <= j < ite.index@ + 1 implies (#[trigger] cs[j + 1]).0@ =~= cs[j].0@.insert(entry_evaluators@[j].0->Some_0, ev_value(entry_evaluators@[j].1, old(scope).contexts@.push(cs[j]))) by {\n'
+                                           '    if j < ite.index@ { assert(cs[j + 1] == cs0[j + 1]); assert(cs[j] == cs0[j]); } else { assert(cs[j] == cs0[j]); assert(cs0[j] == top0); }\n  }\n'
+                                           '  assert(cs[0] == cs0[0]); assert(cs.len() == ite.index@ + 2);\n'
+                                           '  assert(boxed_run(entry_evaluators@, old(scope).contexts@, cs, ite.index@ + 1)); }'}}},
         {'kind': 'closure', 'src': M, 'path': 'fn build_function_definition_evaluator', 'name': 'boxed_function_definition', 'key': 'purity::model::build_function_definition_evaluator', 'props': P, 'auto_props': A, 'loops': 1, 'ret': 'r',
          'lead_params': ['scope: &mut Scope'], 'extra_params': ['parameters: &Vec<(Name, Evaluator)>', 'function_evaluator: &Evaluator'],
          'rewrites': [('R3',), FOR_EACH('parameters'), ('RX', 'R8e', r'\b(evaluator|function_evaluator)\(scope\)', r'\1.call(scope)', 2),
